@@ -96,6 +96,25 @@ theorem c17_targets_from_comment (tagSha : Text → Text → Option Text) (vs : 
       subst hf
       exact ⟨v, label, hm, by simp [hashBumpAction, hx]⟩
 
+/-- **nothing is lost when the lookups succeed**: if the registry answers for every tag, a commented
+    hash pin is offered exactly the bumps a plain version tag would be offered (same targets, same
+    titles, same order) — C07's soundness and completeness of the targets carry over -/
+theorem c17_complete_when_lookups_succeed (tagSha : Text → Text → Option Text) (f : Text → Text)
+    (vs : List Text) (latest : Option (Option Text)) (p : PkgInfo) (h0 : p.commitHash.isSome = true)
+    (c : Text × Nat × Nat) (hx : p.extra = some c) (hok : ∀ t, tagSha p.name t = some (f t)) :
+    (bumpActionsWithSha tagSha (some vs) latest p).map (·.title) = (bumpActions (some vs) p).map (·.title) := by
+  unfold bumpActionsWithSha bumpActions
+  simp only [hx, h0, Option.isNone_some, Bool.and_false, Bool.false_eq_true, if_false, if_true, hok]
+  split
+  · rfl
+  · generalize dedupTargets (targets p.version vs) [] = ts
+    induction ts with
+    | nil => rfl
+    | cons t ts ih =>
+      obtain ⟨v, label⟩ := t
+      simp only [List.filterMap_cons, List.map_cons, ih]
+      simp [hashBumpAction, bumpAction, hx]
+
 /-! ### non-vacuity: tags that are prefixes of each other are not confused (the lookup is by equality) -/
 example :
     let tagSha : Text → Text → Option Text := fun _ t =>
